@@ -78,6 +78,8 @@ Theorem C12_source_shape :
      ("call", "it.readNextChunk"); ("if", "!it.readNextChunk(it.db.B)"); ("return", "false"); ("endif", "");
      ("endif", ""); ("call", "storage.SeriesRef"); ("return", "true"); ("endfor", "")]%string /\
   streamedEncodeUvarintRHS = "binary.PutUvarint(uvarintEncodeBuf, uint64(v-prev))"%string /\
+  readNextChunkDbBAssigns = ["append(remainder, decoded...)"; "decoded"; "append(remainder, uncompressedData...)";
+                             "uncompressedData"]%string /\
   In ("if", "v < prev")%string encodeEvents /\ In ("call", "buf.PutUvarint64")%string encodeEvents.
 Proof. exact source_shape. Qed.
 Print Assumptions C12_source_shape.
